@@ -308,6 +308,41 @@ func run(c *rig.Ctx) {
 		} else {
 			c.Count("mbc1_triples", 0)
 		}
+		// stores that look like flash-chip command sequences (unlock cycles, program, erase,
+		// ID mode - the patterns of the common command sets): a cartridge ROM is not a flash
+		// chip, nothing is programmed or erased, and they are ordinary control stores
+		for _, fl := range [][][2]uint16{
+			{{0x0aaa, 0xaa}, {0x0555, 0x55}, {0x0aaa, 0xa0}, {0x4123, 0x00}},
+			{{0x5555, 0xaa}, {0x2aaa, 0x55}, {0x5555, 0xa0}, {0x0100, 0x00}},
+			{{0x0aaa, 0xaa}, {0x0555, 0x55}, {0x0aaa, 0x80}, {0x0aaa, 0xaa}, {0x0555, 0x55}, {0x0aaa, 0x10}},
+			{{0x5555, 0xaa}, {0x2aaa, 0x55}, {0x5555, 0x90}, {0x0000, 0xf0}},
+			{{0x0aaa, 0xaa}, {0x0555, 0x55}, {0x4000, 0x30}},
+		} {
+			for _, st := range fl {
+				w.write(st[0], uint8(st[1]))
+			}
+			c.Count("flash_command_sequences", 1)
+			if !w.check("flash-style command sequence") {
+				return
+			}
+		}
+		// an OAM DMA transfer from the cartridge is running while control stores are made
+		for k := 0; k < 6; k++ {
+			w.m.Mem.Write(0xff46, r.Pick8([]uint8{0x00, 0x3f, 0x40, 0x7f, 0xa0, 0xbf}))
+			for t := r.Intn(40); t > 0; t-- {
+				w.m.Mem.EndMachineCycle()
+			}
+			regs := regions(kind)
+			w.write(regs[r.Intn(len(regs))], r.U8())
+			w.write(regs[r.Intn(len(regs))], uint8(r.Intn(8)))
+			c.Count("control_stores_during_dma", 2)
+			if !w.check("control stores while an OAM DMA from the cartridge runs") {
+				return
+			}
+			for t := 0; t < 170; t++ {
+				w.m.Mem.EndMachineCycle()
+			}
+		}
 		// random control-write sequences
 		nseq := int(c.N(6, 120))
 		for s := 0; s < nseq; s++ {
